@@ -2,6 +2,7 @@ package wm
 
 import (
 	"bytes"
+	"crypto/sha256"
 	"errors"
 	"fmt"
 	"sync"
@@ -270,6 +271,79 @@ func C12(tier rt.Tier) int {
 			}
 		}
 	}
+	// (C) scale: "any number of requested keys" -- one large trie, the paths to ALL its keys exported
+	// (well over 10^5 exported nodes), then mirrored updates/deletes
+	scale := []int{1000, 70000}
+	if tier == rt.Thorough {
+		scale = []int{1000, 70000, 250000}
+	}
+	for _, n := range scale {
+		n := n
+		tasks <- func() {
+			atomic.AddInt64(&run.cases, 1)
+			atomic.AddInt64(&run.seqs, 1)
+			desc := fmt.Sprintf("trie of %d keys, the paths to all of them exported", n)
+			replay := map[string]any{"scale": n}
+			defer func() {
+				if rec := recover(); rec != nil {
+					run.violate("scale-panic", desc+": panic: "+fmt.Sprint(rec), replay)
+				}
+			}()
+			src := wmpt.New(nil, nil)
+			keys := make([][]byte, n)
+			var total uint64
+			for i := range keys {
+				h := sha256.Sum256([]byte(fmt.Sprintf("scale-key-%d", i)))
+				keys[i] = h[:]
+				w := uint64(i%7 + 1)
+				total += w
+				if err := src.Update(keys[i], []byte(fmt.Sprintf("value-%d", i)), w); err != nil {
+					run.violate("scale-build", fmt.Sprintf("%s: Update %d failed: %v", desc, i, err), replay)
+					return
+				}
+			}
+			if src.Weight() != total {
+				run.violate("scale-weight", fmt.Sprintf("%s: source weight %d, sum of the weights %d", desc, src.Weight(), total), replay)
+				return
+			}
+			export, err := src.GetPath(keys)
+			if err != nil {
+				run.violate("scale-getpath", desc+": GetPath failed: "+err.Error(), replay)
+				return
+			}
+			part := wmpt.New(nil, nil)
+			if err := part.Deserialize(export); err != nil {
+				run.violate("scale-deserialize", fmt.Sprintf("%s (%d bytes): Deserialize of the export failed: %v", desc, len(export), err), replay)
+				return
+			}
+			same := func(when string) bool {
+				if !bytes.Equal(src.Root(), part.Root()) || src.Weight() != part.Weight() {
+					run.violate("scale-diverge", fmt.Sprintf("%s: %s partial trie has root %x weight %d, source has root %x weight %d", desc, when, part.Root(), part.Weight(), src.Root(), src.Weight()), replay)
+					return false
+				}
+				return true
+			}
+			if !same("right after the export") {
+				return
+			}
+			for i := 0; i < 40; i++ {
+				k := keys[(i*7919)%n]
+				var v []byte
+				var w uint64
+				if i%2 == 0 {
+					v, w = []byte(fmt.Sprintf("new-%d", i)), uint64(i+2)
+				}
+				es, ep := src.Update(k, v, w), part.Update(k, v, w)
+				if (es == nil) != (ep == nil) {
+					run.violate("scale-op", fmt.Sprintf("%s: mirrored operation %d: source returned %v, partial trie %v", desc, i, es, ep), replay)
+					return
+				}
+				if !same(fmt.Sprintf("after mirrored operation %d", i)) {
+					return
+				}
+			}
+		}
+	}
 	close(tasks)
 	wg.Wait()
 	nd := 0
@@ -279,7 +353,7 @@ func C12(tier rt.Tier) int {
 	rep.Set("traces_validated_against_impl", int(run.seqs))
 	rep.Set("evaluations", int(run.seqs))
 	rep.Set("distinct_nontrivial", nd)
-	rep.Set("rule", fmt.Sprintf("(A) every content of <= %d keys (plus 3-key shapes) in storage modes %v x EVERY subset of the six alphabet keys plus two never-stored keys (one under an empty root slot, one under an empty slot of the deepest branch) as request x every follow-up sequence of <= %d updates/deletes restricted to the requested keys (single follow-ups for requests of more than 3 keys in quick); (B) shapes with root = shared-prefix node / single entry / branch / empty x request sizes 0,1,2,10,11,12,14,16 padded with never-stored keys (both sides of the >10 parallel-collection threshold) x every single follow-up. Oracle: export deserialises; partial root/weight == source root/weight (== model) before and after every mirrored operation; an operation that succeeds on the source must succeed on the partial trie; 'states' = (content, mode, request) cases, 'transitions' = mirrored sequences, distinct_nontrivial = distinct exports", maxKeys, modes, depth))
+	rep.Set("rule", fmt.Sprintf("(A) every content of <= %d keys (plus 3-key shapes) in storage modes %v x EVERY subset of the six alphabet keys plus two never-stored keys (one under an empty root slot, one under an empty slot of the deepest branch) as request x every follow-up sequence of <= %d updates/deletes restricted to the requested keys (single follow-ups for requests of more than 3 keys in quick); (B) shapes with root = shared-prefix node / single entry / branch / empty x request sizes 0,1,2,10,11,12,14,16 padded with never-stored keys (both sides of the >10 parallel-collection threshold) x every single follow-up; (C) tries of %v keys (hash-like keys, distinct values), the paths to all keys exported, 40 mirrored updates/deletes. Oracle: export deserialises; partial root/weight == source root/weight (== model) before and after every mirrored operation; an operation that succeeds on the source must succeed on the partial trie; 'states' = (content, mode, request) cases, 'transitions' = mirrored sequences, distinct_nontrivial = distinct exports", maxKeys, modes, depth, scale))
 	rep.Sample(map[string]any{"content": "k0=a k1=b", "mode": 1, "requested": "{k0 k5}", "follow": []string{"update(k5,a)", "delete(k0)"}})
 	return rep.Finish()
 }
